@@ -51,7 +51,8 @@ func iteratorsKeepTheirErrors(c *cx, id string) int {
 			if !ok {
 				continue
 			}
-			be, ok := ast.Unparen(cond).(*ast.BinaryExpr)
+			// (a named condition `failed := err != nil; if failed {` stands for its expression)
+			be, ok := ast.Unparen(resolveBool(f, cond)).(*ast.BinaryExpr)
 			if !ok || (be.Op != token.NEQ && be.Op != token.EQL) {
 				continue
 			}
